@@ -95,7 +95,15 @@ def run(tier, replay):
             meta[jid] = {"name": name, "seed": seed, "plans": [], "cat": "bkg"}
     tab = S.tab["table"]
     triples = [(ent, il, lv, m) for ent in tab for il, lv in enumerate(ent["levels"]) for m in range(1, 21)]
-    for (ent, il, lv, m) in rng.sample(triples, 1200 if thorough else 300):
+    # where the admission rules and the kernel have to agree on an energy threshold: the e-capture modes (9..12) of the 2b+ nuclides
+    # at every level (the available energy is Q - EK - 2me or Q - 2EK minus the level), and - thorough - every mode of the levels
+    # less than 4 electron masses below Q.  Whatever the library ACCEPTS there has to yield well-formed events.
+    edge = [t for t in triples if float(t[0]["Z"]) < 0 and (t[3] in (9, 10, 11, 12)
+                                                            or (thorough and float(t[0]["Q"]) - t[2]["E"] / 1000.0 < 2.1))]
+    ck.set("threshold_configurations", len(edge))
+    eid = {(t[0]["name"], t[1], t[3]) for t in edge}
+    rest = [t for t in triples if (t[0]["name"], t[1], t[3]) not in eid]
+    for (ent, il, lv, m) in edge + rng.sample(rest, 1200 if thorough else 300):
         n += 1
         jid = "%s.%d.%d.d%d" % (ent["name"], il, m, n)
         seed = rng.randrange(1, 2 ** 31)
